@@ -52,7 +52,7 @@ SUITES = {
 # scripted regression histories: (file under /verif/scripts/defects, elem)
 DEFECT_SCRIPTS = [
     ("d1.ndjson", "plain"), ("d2.ndjson", "zst"), ("d2b.ndjson", "zst"), ("d3.ndjson", "plain"),
-    ("d5.ndjson", "heap"), ("d4a.ndjson", "plain"), ("d4b.ndjson", "plain"), ("d6.ndjson", "heap"), ("d7.ndjson", "heap"),
+    ("d5.ndjson", "heap"), ("d4a.ndjson", "plain"), ("d4b.ndjson", "plain"), ("d6.ndjson", "heap"), ("d7.ndjson", "heap"), ("d8.ndjson", "plain"),
 ]
 
 # ---------------------------------------------------------------------------------------------
